@@ -14,7 +14,7 @@ RULE = ("one evaluation = one injected stanza into a full protocol stack (bottom
 ASSUMPTIONS = ["a picture notification that is neither set nor delete is rejected by design and not generated",
                "the key upload that an encrypt-count notification triggers is not answered here; only acknowledgements are counted",
                "kinds x selections are enumerated completely, values are sampled"]
-REQUIRED = ["redelivered_at_once", "redelivered_later", "injected", "answers_ok", "kind:notification", "kind:call", "kind:ping", "kind:message", "selections", "with_participant", "unknown_types"]
+REQUIRED = ["shape:unknown-attribute", "shape:unknown-child-appended", "redelivered_at_once", "redelivered_later", "injected", "answers_ok", "kind:notification", "kind:call", "kind:ping", "kind:message", "selections", "with_participant", "unknown_types"]
 TIMEOUT = {"quick": 600, "thorough": 7200}
 
 S = "s.whatsapp.net"
@@ -134,8 +134,25 @@ def judge(acc, kit, name, stanza, want, w, redelivery=None):
     _judge(acc, kit, name, stanza, want, w)
 
 
+def _tolerant_shape(acc, stanza, n):
+    """Every 9th stanza carries something this version of the library does not know: an extra attribute on the stanza, and / or an
+    extra child after the known ones (what a newer server adds). It is acknowledged like any other."""
+    if n % 9 != 0:
+        return stanza
+    tag, attrs, kids, data = stanza
+    how = (n // 9) % 3
+    if how in (0, 2):
+        attrs = dict(attrs, **{"verif-new-attr": "1"})
+        acc.count("shape:unknown-attribute")
+    if how in (1, 2) and data is None:
+        kids = list(kids) + [("verif-new-child", {"k": "v"}, [], None)]
+        acc.count("shape:unknown-child-appended")
+    return (tag, attrs, kids, data)
+
+
 def _judge(acc, kit, name, stanza, want, w):
     acc.count("injected")
+    stanza = _tolerant_shape(acc, stanza, acc.counters.get("injected", 0))
     kit.clear()
     try:
         kit.inject(stanza)
